@@ -609,4 +609,101 @@ theorem PsSpan.split {ps : List Param} {seg : List Token} (h : PsSpan ps seg)
       obtain ⟨l', sp', r, rfl, h3, h4⟩ := ih h2 rfl
       exact ⟨l ++ sp ++ l', sp', r, by simp, h3, h4⟩
 
+
+/-! ## 3. fields, members, declarations -/
+
+/-- `FieldSpan f pre`: the field was read from exactly `pre` = comments, name, `:`, the type's tokens, `;`;
+    its position is the span of `pre` and its type is the span of exactly the tokens between `:` and `;` -/
+def FieldSpan (f : Field) (pre : List Token) : Prop :=
+  ∃ cs nm colon st semi, pre = cs ++ nm :: colon :: (st ++ [semi]) ∧ cs.map (·.tk) = printComments f.comment ∧
+    nm.tk = .id f.name ∧ colon.tk = .kw ":" ∧ semi.tk = .kw ";" ∧ f.pos = tokSpan pre ∧ TSpan f.ty st
+
+/-- **record fields**: the position of a field is the span of exactly the consumed tokens (doc comments included),
+    and the field's type lies within it, between the `:` and the `;` -/
+theorem field_span (fuel : Nat) (ts0 : List Token) (f : Field) (r : List Token) (h : field fuel ts0 = some (f, r)) :
+    ∃ pre, ts0 = pre ++ r ∧ pre ≠ [] ∧ FieldSpan f pre := by
+  obtain ⟨cs, h1, h2⟩ := comments_sound ts0
+  unfold field at h
+  generalize comments ts0 = x at h h1 h2
+  obtain ⟨c, ts⟩ := x
+  simp only [Option.bind_eq_bind, Option.pure_def] at h h1 h2
+  cases hi : ident ts with
+  | none => simp [hi] at h
+  | some y =>
+    obtain ⟨n, ts1⟩ := y
+    obtain ⟨nt, rfl, hnt⟩ := ident_inv hi
+    simp only [hi, Option.bind_some] at h
+    cases hk : kw? ":" ts1 with
+    | none => simp [hk] at h
+    | some ts2 =>
+      obtain ⟨colon, rfl, hcolon⟩ := kw?_inv hk
+      simp only [hk, Option.bind_some] at h
+      obtain ⟨t, r', hmem, hnext⟩ := firstThat_inv h
+      cases hs : kw? ";" r' with
+      | none => simp [hs] at hnext
+      | some ts3 =>
+        obtain ⟨semi, rfl, hsemi⟩ := kw?_inv hs
+        simp only [hs, Option.bind_some, Option.some.injEq, Prod.mk.injEq] at hnext
+        obtain ⟨rfl, rfl⟩ := hnext
+        obtain ⟨pre, rfl, _, _, hc⟩ := typeRefL_span fuel _ _ _ hmem
+        have hts : ts0 = (cs ++ nt :: colon :: (pre ++ [semi])) ++ ts3 := by rw [h1]; simp
+        refine ⟨cs ++ nt :: colon :: (pre ++ [semi]), hts, by simp, cs, nt, colon, pre, semi, rfl, h2, hnt, hcolon, hsemi, ?_, hc⟩
+        show spanPos ts0 ts3 = _
+        rw [hts, spanPos_eq_tokSpan]
+
+/-- exact tiling: the results of a repetition were read from consecutive segments that together make up `pre` -/
+inductive Tiles {α : Type} (S : α → List Token → Prop) : List α → List Token → Prop
+  | nil : Tiles S [] []
+  | cons (a : α) (as : List α) (q pre : List Token) : S a q → Tiles S as pre → Tiles S (a :: as) (q ++ pre)
+
+theorem many_tiles {α : Type} (S : α → List Token → Prop) (fuel : Nat) (stop : List Token → Bool) (p : P α)
+    (hp : ∀ ts a rest, p ts = some (a, rest) → ∃ pre, ts = pre ++ rest ∧ S a pre) (n : Nat) :
+    ∀ ts as rest, many fuel stop p n ts = some (as, rest) → ∃ pre, ts = pre ++ rest ∧ Tiles S as pre := by
+  induction n with
+  | zero => intro ts as rest h; simp [many] at h
+  | succ n ih =>
+    intro ts as rest h
+    simp only [many] at h
+    split at h
+    · simp at h; obtain ⟨rfl, rfl⟩ := h; exact ⟨[], by simp, Tiles.nil⟩
+    · cases h1 : p ts with
+      | none => simp [h1] at h
+      | some x =>
+        obtain ⟨a, r⟩ := x
+        simp only [h1, Option.bind_eq_bind, Option.bind_some] at h
+        cases h2 : many fuel stop p n r with
+        | none => simp [h2] at h
+        | some y =>
+          obtain ⟨as', r'⟩ := y
+          simp [h2] at h
+          obtain ⟨rfl, rfl⟩ := h
+          obtain ⟨q, rfl, hq⟩ := hp _ _ _ h1
+          obtain ⟨pre, rfl, hpre⟩ := ih _ _ _ h2
+          exact ⟨q ++ pre, by simp, Tiles.cons _ _ _ _ hq hpre⟩
+
+/-- an element of a tiling occupies a contiguous sub-segment; the elements after it tile what follows -/
+theorem Tiles.split {α : Type} {S : α → List Token → Prop} {as : List α} {pre : List Token} (h : Tiles S as pre)
+    {xs ys : List α} {a : α} (he : as = xs ++ a :: ys) :
+    ∃ l q r, pre = l ++ q ++ r ∧ Tiles S xs l ∧ S a q ∧ Tiles S ys r := by
+  induction xs generalizing as pre with
+  | nil =>
+    subst he
+    cases h with
+    | cons _ _ q pre' h1 h2 => exact ⟨[], q, pre', by simp, Tiles.nil, h1, h2⟩
+  | cons x xs ih =>
+    subst he
+    cases h with
+    | cons _ _ q pre' h1 h2 =>
+      obtain ⟨l, q', r, rfl, h3, h4, h5⟩ := ih h2 rfl
+      exact ⟨q ++ l, q', r, by simp, Tiles.cons _ _ _ _ h1 h3, h4, h5⟩
+
+/-- the recorded position of a declaration -/
+def Decl.pos : Decl → Pos
+  | .enum _ _ _ p => p
+  | .flags _ _ _ p => p
+  | .record _ _ _ _ _ _ p => p
+  | .interface _ _ _ _ _ _ _ p => p
+  | .function _ _ _ p => p
+  | .error _ _ _ p => p
+
 end Pydjinni.Front
